@@ -796,16 +796,21 @@ Qed.
 Lemma oitem_kind (a : option N) i : oitem a = Some i -> snd i = 0.
 Proof. intros H. apply oitem_some in H. destruct H as (x & _ & ->). reflexivity. Qed.
 
+Lemma id_nil_repaired st r s isreq :
+  id_nil Repaired st r s isreq = [(mkState r (put_sess s (st_sess st)) (st_prov st), OId isreq IdNil (s_a4 s))].
+Proof. reflexivity. Qed.
+
 Lemma step_id_core_inv st s s0 isreq st' o :
   inv st -> ctx_of st s s0 -> In (st', o) (step_id_core Repaired st s0 isreq) -> inv st'.
 Proof.
   intros Hinv (Hin & Hid & Hp & Hl & Hs0). pose proof Hinv as (Hr & _).
   destruct (Hs0 Hl) as (_ & OT & O6 & OD).
   unfold step_id_core. destruct (s_prof4 s0) as [pf|] eqn:Epf.
-  2:{ intros [E|[]]; inversion E; subst.
+  2:{ rewrite id_nil_repaired. intros [E|[]]; inversion E; subst.
       apply inv_update with (s := s); [exact Hinv|exact Hin|exact Hid|apply step_ok_refl|intros _; exact Hs0|].
       apply ipoe_told_ok; exact Hp. }
   unfold bindl. intros H. apply in_flat_map in H. destruct H as ([[[r1 a4] pk] ok] & Hc & H).
+  rewrite id_nil_repaired in H.
   destruct (acquire_ok F4 _ _ _ _ _ _ _ _ _ _ Hr (fun _ i Hi => oitem_kind _ _ Hi) Hc) as (A & B & C).
   destruct (rinv_step _ _ _ Hr A) as [Hr1 Hp1].
   assert (Hcarry : forall f x, oo (st_reg st) (s_vrf s0) (s_id s0) f x -> oo r1 (s_vrf s0) (s_id s0) f x).
